@@ -6,8 +6,21 @@ import StraxModel.Model.Net
 namespace Strax.Net
 open Strax
 
+/-- the longest exception handler a program can still install with `setEpi` -/
+def progEpiBound : List Instr → Nat
+  | [] => 0
+  | .setEpi ms :: r => max ms.length (progEpiBound r)
+  | _ :: r => progEpiBound r
+
+theorem progEpiBound_tail (i : Instr) (r : List Instr) : progEpiBound r ≤ progEpiBound (i :: r) := by
+  cases i <;> simp [progEpiBound]
+  exact Nat.le_max_right _ _
+
+/-- longest epilogue the thread may still jump to -/
+def TSt.epiBound (ts : TSt) : Nat := max ts.epi.length (progEpiBound ts.prog)
+
 /-- weight of a thread: two per remaining instruction, plus the epilogue it may still jump to -/
-def TSt.weight (ts : TSt) : Nat := 2 * ts.prog.length + (if ts.inEpi then 0 else 2 * ts.epi.length + 2)
+def TSt.weight (ts : TSt) : Nat := 2 * ts.prog.length + (if ts.inEpi then 0 else 2 * ts.epiBound + 2)
 
 def ASub.weight (sb : ASub) : Nat := if sb.waiting.isNone then 1 else 0
 
@@ -49,15 +62,18 @@ theorem measure_modMB (s : NState) (m : Nat) (f : AMB → AMB) (a : AMB) (h : s.
   unfold NState.modMB; split <;> rfl
 
 theorem advance_weight (ts : TSt) (i : Instr) (r : List Instr) (h : ts.prog = i :: r) :
-    ts.advance.weight + 2 = ts.weight := by
-  simp [TSt.weight, TSt.advance, h]; omega
+    ts.advance.weight + 2 ≤ ts.weight := by
+  have := progEpiBound_tail i r
+  simp only [TSt.weight, TSt.advance, TSt.epiBound, h, List.tail_cons, List.length_cons]
+  split <;> omega
 
 theorem raise_weight (ts : TSt) (own : Bool) (e : Exc) (i : Instr) (r : List Instr) (h : ts.prog = i :: r) :
     (ts.raise own e).weight + 2 ≤ ts.weight := by
   unfold TSt.raise
   by_cases hi : ts.inEpi = true
   · simp [TSt.weight, hi, h]; omega
-  · simp [TSt.weight, hi, h]
+  · simp only [hi, Bool.false_eq_true, if_false, TSt.weight, TSt.epiBound, h, List.length_cons, if_true]
+    omega
 
 theorem kill_weight (a : AMB) (r : Exc) : (a.kill r).weight = a.weight := by
   unfold AMB.kill; split <;> rfl
@@ -170,7 +186,8 @@ theorem step_decreases (net : Net) (s s' : NState) (t : Nat) (h : step net s t =
       | die e =>
         simp only [Option.some.injEq] at h; subst h
         apply measure_thr_only hts
-        simp [TSt.weight, hp]
+        simp only [TSt.weight, TSt.epiBound, hp, List.length_nil, List.length_cons, progEpiBound]
+        split <;> omega
       | killIfExc m =>
         simp only at h
         split at h
@@ -210,7 +227,13 @@ theorem step_decreases (net : Net) (s s' : NState) (t : Nat) (h : step net s t =
       | dropEpi =>
         simp only [Option.some.injEq] at h; subst h
         apply measure_thr_only hts
-        simp [TSt.weight, TSt.advance, hp]
+        have := progEpiBound_tail .dropEpi r
+        simp only [TSt.weight, TSt.advance, TSt.epiBound, hp, List.tail_cons, List.length_cons, List.length_nil]
+        split <;> omega
+      | setEpi ms =>
+        simp only [Option.some.injEq] at h; subst h
+        apply measure_thr_only hts
+        simp only [TSt.weight, TSt.advance, TSt.epiBound, hp, List.tail_cons, List.length_cons, List.length_map, progEpiBound]
         split <;> omega
 
 /-- a schedule can never be longer than the measure of the state it starts in -/
